@@ -130,7 +130,32 @@ pub fn guarded<T>(f: impl FnOnce() -> T) -> Result<T, String> {
 }
 
 pub fn quiet_panics() {
-    std::panic::set_hook(Box::new(|_| {}));
+    std::panic::set_hook(Box::new(|info| abort_note(&info.to_string())));
+}
+
+thread_local! {
+    /// set while an extern "C" function of the library is executing: a panic in there cannot unwind and aborts the process
+    static IN_C: std::cell::RefCell<Option<String>> = std::cell::RefCell::new(None);
+    static ABORT_FILE: std::cell::RefCell<Option<String>> = std::cell::RefCell::new(None);
+}
+pub fn set_abort_file(path: &str) {
+    let _ = std::fs::remove_file(path);
+    ABORT_FILE.with(|f| *f.borrow_mut() = Some(path.to_string()));
+}
+/// called from the panic hook: when the panic happens inside the C ABI, leave a note that survives the abort
+pub fn abort_note(msg: &str) {
+    let ctx = IN_C.with(|c| c.borrow().clone());
+    if let (Some(ctx), Some(path)) = (ctx, ABORT_FILE.with(|f| f.borrow().clone())) {
+        let line = serde_json::json!({"ev": "abort_in_c_abi", "call": ctx, "panic": msg.chars().take(200).collect::<String>()});
+        let _ = std::fs::write(path, format!("{line}\n"));
+    }
+}
+/// like `guarded`, for calls through the C ABI: `what` names the call for the abort note
+pub fn cguard<T>(what: &str, f: impl FnOnce() -> T) -> Result<T, String> {
+    IN_C.with(|c| *c.borrow_mut() = Some(what.to_string()));
+    let r = guarded(f);
+    IN_C.with(|c| *c.borrow_mut() = None);
+    r
 }
 
 /// parse `--key value` style arguments
